@@ -585,15 +585,42 @@ package soyhtml
 //@ func directiveNoAutoescape
 //@   like renderFn
 //@   nosafety
+// C16: the encoding directives delegate to the standard encoders (trusted):
+// each returns exactly what the encoder produces for the printed value.
 //@ func directiveEscapeUri
 //@   like renderFn
+//@   props C16 C08 C09
 //@   nosafety
+//@   ghost vs string = ""
+//@   ghost enc string = ""
+//@   ghost done bool = false
+//@   at call data.Value.String#0 after set vs = res
+//@   at call url.QueryEscape#0 assert[encodes-the-value;C16] arg0 == vs
+//@   at call url.QueryEscape#0 after set enc = res
+//@   at call url.QueryEscape#0 after set done = true
+//@   ensures[result-is-the-encoders-output;C16] done && typeis(result, data.String) && unbox(result, data.String) == enc
 //@ func directiveEscapeJsString
 //@   like renderFn
+//@   props C16 C08 C09
 //@   nosafety
+//@   ghost vs string = ""
+//@   ghost enc string = ""
+//@   ghost done bool = false
+//@   at call data.Value.String#0 after set vs = res
+//@   at call template.JSEscapeString#0 assert[encodes-the-value;C16] arg0 == vs
+//@   at call template.JSEscapeString#0 after set enc = res
+//@   at call template.JSEscapeString#0 after set done = true
+//@   ensures[result-is-the-encoders-output;C16] done && typeis(result, data.String) && unbox(result, data.String) == enc
 //@ func directiveJson
 //@   like renderFn
+//@   props C16 C08 C09
 //@   nosafety
+//@   ghost done bool = false
+//@   ghost j []byte = nil
+//@   at call json.Marshal#0 assert[encodes-the-value;C16] arg0 == value
+//@   at call json.Marshal#0 after set j = res0
+//@   at call json.Marshal#0 after set done = true
+//@   ensures[result-is-the-encoders-output;C16] done && typeis(result, data.String) && len(unbox(result, data.String)) == len(j) && forall(i, 0, len(j), unbox(result, data.String)[i] == j[i])
 //@ func checkNumArgs
 //@   like renderFn
 //@   nosafety
